@@ -583,7 +583,17 @@ func c20Gen(rt *rapid.T) c20Case {
 		}
 		rpc := c20Opt{"rpc-address", "10.9.0.100", c20Channel(rt, "rpc-address", true)}
 		tok := c20Opt{"tokens", "5000", c20Channel(rt, "tokens", true)}
-		switch rapid.IntRange(0, 5).Draw(rt, "peercase") {
+		pc := rapid.IntRange(0, 5).Draw(rt, "peercase")
+		if (pc == 0 || pc == 3) && rapid.Bool().Draw(rt, "selfinpeers") {
+			// the shared peers list of the README: it also names this proxy itself (with tokens)
+			self := c20Peer{RPC: "10.9.0.100", DC: "dc1", Tokens: []string{"5000"}}
+			at := rapid.IntRange(0, len(c.Peers)).Draw(rt, "selfat")
+			c.Peers = append(c.Peers[:at], append([]c20Peer{self}, c.Peers[at:]...)...)
+			if pc == 3 {
+				np = 0 // the peer that loses its tokens below must not be the proxy's own entry
+			}
+		}
+		switch pc {
 		case 0:
 			c.Opts = []c20Opt{rpc, tok}
 			c.Expect, c.Why, c.WantVersion = "serve", "peers-valid", 4
@@ -595,7 +605,17 @@ func c20Gen(rt *rapid.T) c20Case {
 			c.Opts = []c20Opt{rpc, tok}
 			c.Expect, c.Why = "refuse", "peer-without-rpc-address"
 		case 3:
-			c.Peers[rapid.IntRange(0, np-1).Draw(rt, "which")].Tokens = nil
+			if np == 0 { // own entry present: pick one of the others
+				var others []int
+				for i := range c.Peers {
+					if c.Peers[i].RPC != "10.9.0.100" {
+						others = append(others, i)
+					}
+				}
+				c.Peers[others[rapid.IntRange(0, len(others)-1).Draw(rt, "whichother")]].Tokens = nil
+			} else {
+				c.Peers[rapid.IntRange(0, np-1).Draw(rt, "which")].Tokens = nil
+			}
 			c.Opts = []c20Opt{rpc, tok}
 			c.Expect, c.Why = "refuse", "tokens-for-self-not-every-peer"
 		case 4:
@@ -611,7 +631,9 @@ func c20Gen(rt *rapid.T) c20Case {
 	}
 	if rapid.IntRange(0, 14).Draw(rt, "badyaml") == 0 && c.Expect == "serve" {
 		// a valid configuration plus a YAML file that names an unknown enum value
-		c.BadYAML = rapid.SampledFrom([]string{"unsupported-write-consistency-override: NOT_A_LEVEL", "unsupported-write-consistencies: [one, bogus]", "num-conns: many", "heartbeat-interval: soon", "debug: perhaps"}).Draw(rt, "badyamlline")
+		c.BadYAML = rapid.SampledFrom([]string{"unsupported-write-consistency-override: NOT_A_LEVEL", "unsupported-write-consistencies: [one, bogus]", "num-conns: many", "heartbeat-interval: soon", "debug: perhaps",
+			// a version option that is present without a value (a template that rendered empty) names no documented version
+			"protocol-version: ~", "protocol-version:", "max-protocol-version: null", "protocol-version: \"\""}).Draw(rt, "badyamlline")
 		c.Expect, c.Why = "refuse", "invalid-yaml-value"
 	}
 	return c
